@@ -10,6 +10,7 @@ import (
 	"os"
 	"sort"
 	"strings"
+	"time"
 
 	"golang.org/x/tools/go/ssa"
 )
@@ -83,6 +84,15 @@ type verifEmitter struct{}
 
 func (verifEmitter) Emit(s State) {
 	verifNdEmit(s.Pending, s.Ready, s.Waiting, s.IdleWorkers, s.Concurrency)
+}
+
+`)
+	sb.WriteString(`func verifNdObserve(concurrency, capDone int)
+
+// default concurrency limit (C03): nothing is enqueued, only New is examined
+func verifHarness_default() {
+	s := Config{}.New()
+	verifNdObserve(s.concurrency, cap(s.donec))
 }
 
 `)
@@ -857,3 +867,130 @@ func (l *L1) ModelTerms() []*Term {
 }
 
 var _ = sort.Ints
+
+// DefaultLimitResult: the C03 kernel for the default concurrency limit.
+type DefaultLimitResult struct {
+	MaxProcs int        `json:"gomaxprocs_range_upper"`
+	Paths    int        `json:"paths"`
+	Terms    int        `json:"terms"`
+	Procs    int        `json:"worker_processes_created"`
+	Obs      []ObResult `json:"obligations"`
+	Error    string     `json:"error,omitempty"`
+	Inconcl  bool       `json:"inconclusive,omitempty"`
+	Failed   []string   `json:"failed,omitempty"`
+	Witness  int64      `json:"witness_gomaxprocs,omitempty"`
+	Disch    int        `json:"discharged"`
+	Oblig    int        `json:"n_obligations"`
+	SolveS   float64    `json:"solve_seconds"`
+	Queries  int        `json:"queries"`
+}
+
+// RunDefaultLimit executes Config{}.New() with runtime.GOMAXPROCS(0) = g for
+// a solver-chosen g in 1..G and checks: the limit is max(g,4), the results
+// channel has that capacity and exactly that many workers are started.
+func RunDefaultLimit(P *Program, G int, solver string, timeoutMs int) (res *DefaultLimitResult) {
+	res = &DefaultLimitResult{MaxProcs: G}
+	defer func() {
+		if r := recover(); r != nil {
+			if ee, ok := r.(EngineError); ok {
+				res.Error = ee.Msg
+				res.Inconcl = true
+				return
+			}
+			panic(r)
+		}
+	}()
+	l := NewL1(P, &Cube{ID: "default", Deps: [][]int{}, N: 0, Outcomes: []int{OutOK}})
+	e := l.E
+	B := e.B
+	g := B.Var("gomaxprocs", 64)
+	tree := B.BV(64, uint64(G))
+	for v := G - 1; v >= 1; v-- {
+		tree = B.Ite(B.Eq(g, B.BV(64, uint64(v))), B.BV(64, uint64(v)), tree)
+	}
+	inRange := B.And(B.Ule(B.BV(64, 1), g), B.Ule(g, B.BV(64, uint64(G))))
+	e.Intrinsics["runtime.GOMAXPROCS"] = func(e *Engine, p *Path, ic *ICall) { ic.Return(e, p, Value{tree}) }
+	workers := l.cell(8, "workersSpawned")
+	e.SpawnHook = func(p *Path, callee string) {
+		if callee == "worker" {
+			p.Store(e, workers, B.Add(p.Load(e, workers), B.BV(8, 1)))
+		}
+	}
+	e.Intrinsics[SchedPkg+".verifNdObserve"] = func(e *Engine, p *Path, ic *ICall) {
+		conc, capv := ic.Args[0][0], ic.Args[1][0]
+		want := B.Ite(B.Ult(tree, B.BV(64, 4)), B.BV(64, 4), tree)
+		e.RaiseFlag(p, "limit", B.Not(B.Eq(conc, want)))
+		e.RaiseFlag(p, "cap", B.Not(B.Eq(capv, want)))
+		e.RaiseFlag(p, "workers", B.Not(B.Eq(B.Zext(p.Load(e, workers), 64), want)))
+		e.RaiseFlag(p, "reached", B.True)
+		ic.Return(e, p, Value{})
+	}
+	initFn := P.SSA[SchedPkg].Func("init")
+	e.Concurrent = false
+	paths := e.RunSequential(initFn, nil, nil)
+	e.init = paths[0].Heap
+	s := NewSys(e)
+	l.S = s
+	s.MaxGen = 3
+	s.Start(P.SSA[SchedPkg].Func("verifHarness_default"), nil)
+	res.Terms = B.NumTerms()
+	for _, pr := range s.Procs {
+		if strings.HasPrefix(pr.Label, "worker") {
+			res.Procs++
+		}
+	}
+	sv, err := NewSolver(B, solver, timeoutMs)
+	if err != nil {
+		res.Error = err.Error()
+		res.Inconcl = true
+		return
+	}
+	defer sv.Close()
+	flag := func(n string) *Term {
+		a, ok := e.Flags[n]
+		if !ok {
+			return B.False
+		}
+		return s.Load(a)
+	}
+	type ob struct {
+		name string
+		t    *Term
+		sat  bool
+	}
+	obs := []ob{
+		{"reachability: New returned for some GOMAXPROCS", flag("reached"), true},
+		{"concurrency limit is max(GOMAXPROCS, 4)", flag("limit"), false},
+		{"result channel capacity equals the limit", flag("cap"), false},
+		{"exactly limit workers are started", flag("workers"), false},
+		{"no runtime fault", flag("fault"), false},
+		{"unwinding / pool bounds", flag("unwind"), false},
+	}
+	for _, o := range obs {
+		t1 := time.Now()
+		v, m, err := sv.Check([]*Term{o.t, inRange}, []*Term{g})
+		res.SolveS += time.Since(t1).Seconds()
+		res.Queries++
+		if err != nil {
+			res.Error = err.Error()
+			v = Unknown
+		}
+		res.Obs = append(res.Obs, ObResult{Prop: "C03", Name: o.name, Verdict: v.String(), WantSat: o.sat, Seconds: time.Since(t1).Seconds()})
+		switch {
+		case v == Unknown:
+			res.Inconcl = true
+		case o.sat && v == Sat:
+			res.Witness = int64(m[g.ID])
+		case o.sat && v == Unsat:
+			res.Inconcl = true
+		case !o.sat:
+			res.Oblig++
+			if v == Unsat {
+				res.Disch++
+			} else {
+				res.Failed = append(res.Failed, fmt.Sprintf("%s (GOMAXPROCS=%d)", o.name, m[g.ID]))
+			}
+		}
+	}
+	return res
+}
